@@ -117,3 +117,39 @@ Lemma u2f_exact : forall n : N, (n <= 2 ^ 53)%N -> fnn (u2f n) /\ FR (u2f n) = I
 Proof.
   intros n Hn. destruct (u2f_spec n) as [H1 H2]; [lia|]. split; [exact H1|]. rewrite H2. apply rnd_int. lia.
 Qed.
+
+(* theta as a fraction: theta64 as f64 / MAX_THETA as f64 is a finite number in (0, 1] for every 1 <= theta64 <= MAX_THETA *)
+Lemma theta_frac_pos : forall th : N, (1 <= th <= MAX_THETA)%N -> fpos (theta_frac th) /\ (FR (theta_frac th) <= 1)%R.
+Proof.
+  intros th Hth. unfold theta_frac, MAX_THETA in *.
+  destruct (u2f_spec th ltac:(lia)) as [[Ft T0] RT].
+  destruct (u2f_spec 9223372036854775807 ltac:(lia)) as [[Fm M0] RM].
+  set (m := u2f 9223372036854775807) in *.
+  assert (Ht1 : (1 <= FR (u2f th))%R).
+  { rewrite RT. rewrite <- (rnd_int 1) by lia. apply rnd_le. apply IZR_le. lia. }
+  assert (Htm : (FR (u2f th) <= FR m)%R).
+  { rewrite RT, RM. apply rnd_le. apply IZR_le. lia. }
+  assert (Mhi : (FR m <= bpow radix2 63)%R).
+  { rewrite RM. rewrite <- (round_generic radix2 (SpecFloat.fexp prec emax) (round_mode mode_NE) (bpow radix2 63)).
+    - apply rnd_le. change (bpow radix2 63) with (IZR (2 ^ 63)). apply IZR_le. lia.
+    - apply generic_format_bpow. unfold SpecFloat.fexp, Z.le. vm_compute. discriminate. }
+  assert (Pm : fpos m) by (split; [exact Fm|lra]).
+  assert (Nt : fnn (u2f th)) by (split; [exact Ft|lra]).
+  assert (B63 : (0 < bpow radix2 63)%R) by apply bpow_gt_0.
+  assert (Hq1 : (FR (u2f th) / FR m <= 1)%R).
+  { apply (Rmult_le_reg_r (FR m)); [lra|]. unfold Rdiv. rewrite Rmult_assoc, Rinv_l by lra. lra. }
+  assert (Hq0 : (bpow radix2 (-63) <= FR (u2f th) / FR m)%R).
+  { change (-63)%Z with (- (63))%Z. rewrite bpow_opp. unfold Rdiv. apply Rle_trans with (1 * / FR m)%R.
+    - rewrite Rmult_1_l. apply Rinv_le_contravar; lra.
+    - apply Rmult_le_compat_r; [|exact Ht1]. left. apply Rinv_0_lt_compat. lra. }
+  destruct (fdiv_cases (u2f th) m Nt Pm) as [(Hlt & Hf & HR)|(Hge & _)].
+  - split; [split; [exact Hf|]|].
+    + rewrite HR. apply Rlt_le_trans with (bpow radix2 (-63)); [apply bpow_gt_0|].
+      rewrite <- (round_generic radix2 (SpecFloat.fexp prec emax) (round_mode mode_NE) (bpow radix2 (-63))).
+      * apply rnd_le. exact Hq0.
+      * apply generic_format_bpow. unfold SpecFloat.fexp, Z.le. vm_compute. discriminate.
+    + rewrite HR. rewrite <- (rnd_int 1) by lia. apply rnd_le. exact Hq1.
+  - exfalso. pose proof (rnd_le _ _ Hq1) as Hr. rewrite (rnd_int 1) in Hr by lia.
+    assert (1 < bpow radix2 emax)%R. { change 1%R with (bpow radix2 0). apply bpow_lt. unfold emax. lia. }
+    change (IZR 1) with 1%R in Hr. lra.
+Qed.
